@@ -2,6 +2,7 @@
 // @id C12.rk_zero_order
 // @engine B
 // @entry vfh_C12_rk_zero
+// @shared_state_watch
 // @tier Q
 // @opts loop_bound=40 timeout_ms=10000 budget_s=300
 // @reach rk.done
@@ -13,6 +14,7 @@
 // @id C12.rk_first_order
 // @engine B
 // @entry vfh_C12_rk_first
+// @shared_state_watch
 // @tier Q
 // @opts loop_bound=12 timeout_ms=10000 budget_s=300
 // @reach rk.done
